@@ -413,8 +413,10 @@ def r4(R, repo):
   data_list = None
   tests = [n for n in c.nodes if n.kind == 'if' and n in c.loop_body_nodes(lp)]
   if ok and tests and len(lists) == 2:
+    flag_names = {t_.id for n_ in astu.body_walk(lp) if isinstance(n_, ast.Assign) and n_.value is flagdef[0] for t_ in n_.targets if isinstance(t_, ast.Name)}
+    is_flag = lambda e: (isinstance(e, ast.Name) and e.id in flag_names) or e is flagdef[0]
     for name, a in lists.items():
-      if c.edge_guarded(a, tests[0], 'T'):
+      if evid.guarded(c, a, is_flag) == 'yes':
         data_list = name
   meta_list = [n for n in lists if n != data_list]
   R.judge(len(flagdef) == 1 and len(flagdef[0].args) == 2 and data_list is not None, ok and data_list is not None, key_of(f, "metadata.get('pytree_node', True) selects the data list"), (f, lp),
